@@ -214,7 +214,8 @@ def run(ctx):
         ctx.ok('C18.4', f_pa.loc(), 'parse_all:escape-set', 'nothing escapes parse_all')
     from .c08 import check_loop_exits, parse_all_paths
     check_loop_exits(ctx, 'C18.4', parse_all_paths(ctx))
-    hs = [n for n in f_pa.body_nodes() if isinstance(n, ast.ExceptHandler)]
+    from .common import scope_nodes as _sn
+    hs = [n for g__, n in _sn(repo, f_pa) if isinstance(n, ast.ExceptHandler)]
     ctx.check(any(h.type is not None and norm(h.type) == 'Exception' for h in hs), 'C18.4', 'parse_all:catch-all', f_pa.loc(), 'the decode step is under a handler for Exception')
     f_into = repo.func('parse.into_sink')
     for p in paths_of(repo, f_into):
